@@ -240,8 +240,14 @@ def _native_setup(mod, job, ghost, env):
 
     def wt(self, data, *a, **k):
         g.E = g.E + [6]
-        g.files = dict(g.files, **{str(self): data})
-        return st["saved"]["wt"](self, data, *a, **k)
+        r = st["saved"]["wt"](self, data, *a, **k)
+        # what the file holds is what a UTF-8 reader (PlatformIO, the compiler) finds on disk, not the string handed to write_text
+        try:
+            on_disk = open(self, "rb").read().decode("utf-8", errors="replace")
+        except OSError:
+            on_disk = data
+        g.files = dict(g.files, **{str(self): on_disk})
+        return r
 
     def mk(self, *a, **k):
         g.E = g.E + [5]
@@ -332,7 +338,9 @@ def native_samples(reg, rnd, n):
                # characters that str.splitlines() treats as line boundaries inside a string literal of the sketch (form feed, vertical tab, NEL,
                # line/paragraph separator, carriage return): main.cpp is the returned source verbatim
                "from Reduino.Communication import SerialMonitor\nmon = SerialMonitor(9600)\nmon.write('page one\x0cpage two')\nmon.write('a\x0bb\x1cc\x85d\u2028e\u2029f')\n",
-               "from Reduino.Communication import SerialMonitor\nmon = SerialMonitor(9600)\nmon.write('cr\\rlf')\nmon.write('tab\\there')\n"]
+               "from Reduino.Communication import SerialMonitor\nmon = SerialMonitor(9600)\nmon.write('cr\\rlf')\nmon.write('tab\\there')\n",
+               # text outside ASCII: main.cpp holds the returned source as UTF-8
+               "from Reduino.Communication import SerialMonitor\nmon = SerialMonitor(9600)\nmon.write('Température: 21 °C')\nmon.write('日本語 ✓')\n"]
     for i in range(max(n, 48)):
         plat, board = rnd.choice(pairs)
         # every script is used (round-robin), and every script at least once with a registered pair and nothing failing
